@@ -174,6 +174,10 @@ def step (d : DSt) (ws : List String) : DSt × String :=
     -- a send that finds its recipient's mailbox closed fails, whenever it finds out: M-NET's classification of a failed
     -- send is NoRecipient naming the sending model (`fault_attribution`), and nothing runs after a fault
     (d, "deadlate no-recipient sender then terminated")
+  | ["twosims", _, _, victim] =>
+    -- the first simulation's panic names its model; the second simulation's failed send is raised by its scheduler, not by
+    -- a model: M-NET's classification of a failed send from outside any model is NoRecipient without a name
+    (d, s!"twosims a=panic a{victim} b=no-recipient -")
   | ["nestrun", _, kind, n] =>
     -- the nested simulation's own report follows M-NET's classification (a message left in a mailbox outside the
     -- simulation is a loss, a model waiting for its own reply is a deadlock with its request queued, a panic names the
